@@ -453,10 +453,19 @@ impl PacketReceiver {
 impl PacketReceiver {
     pub fn verif_dump(&self) -> String {
         let stored: usize = self.data_entries.iter().map(|e| e.data.as_ref().map_or(0, |d| d.len())).sum();
-        format!("base={} end={} alloc={} crf={:x} wrf={} held={}",
+        let cb: Vec<String> = self.channels.iter().enumerate()
+            .filter_map(|(c, ch)| ch.base_id.map(|b| format!("{}:{}", c, b))).collect();
+        let cn: Vec<String> = self.channels.iter().enumerate()
+            .filter(|(_, ch)| ch.packet_count != 0).map(|(c, ch)| format!("{}:{}", c, ch.packet_count)).collect();
+        let mk: Vec<String> = self.channel_base_markers.iter().enumerate()
+            .filter_map(|(i, m)| m.map(|c| format!("{}:{}", i, c))).collect();
+        let ef: u32 = self.entry_flags.iter().map(|w| w.count_ones()).sum();
+        let df: u32 = self.data_flags.iter().map(|w| w.count_ones()).sum();
+        format!("base={} end={} alloc={} crf={:x} wrf={} held={} cb=[{}] cn=[{}] mk=[{}] ef={} df={}",
                 self.base_id, self.end_id, self.assembly_window.verif_alloc(),
                 self.channel_ready_flags, self.window_ready_flag as u8,
-                self.assembly_window.verif_held() + stored)
+                self.assembly_window.verif_held() + stored,
+                cb.join(","), cn.join(","), mk.join(","), ef, df)
     }
 }
 
